@@ -34,7 +34,7 @@ def build(tier, rnd):
     out = []
     alld = c01.dialects()
     n = 1500 if tier == "quick" else 20000
-    g = sqlgen.Gen(random.Random(common.env.seed() * 104729 + 5), alias_p=0.6)
+    g = sqlgen.Gen(random.Random(common.env.seed() * 104729 + 5), alias_p=0.6, scalar_p=0.12)
     for i in range(n):
         st = g.statement(rnd.choice([1, 1, 2, 2, 3]), kinds=KINDS)
         ds = ["ansi"] if i % 3 else ["ansi", alld[(i // 3 + common.env.seed()) % len(alld)]]
@@ -94,9 +94,42 @@ def same_alias_cases(n, seed):
     return out
 
 
-def classify(tags, dialect, missing, unexpected, exp):
+def _kf39_split(sql, dialect, missing, unexpected):
+    """pairs explained by KF-39 (a select-item scalar sub-query is analysed by a nested legacy run) are taken out; returns (rest_missing, rest_unexpected, n_explained)"""
+    from vlib import sqlfeat
+    feat = sqlfeat.features(sql, dialect)
+    sch, win = feat["select_subquery_fullname_schemas"], feat["select_subquery_window_expr_tables"]
+    rest_u, phantom = [], set()
+    for p in unexpected:
+        parts = p[0].split(".")
+        # (a) schema.table.column inside the sub-query: the column lands on <default>.<schema>
+        if len(parts) == 3 and parts[0] == "<default>" and parts[1] in sch:
+            phantom.add((parts[1], parts[2], p[1]))
+        else:
+            rest_u.append(p)
+    rest_m = []
+    for p in missing:
+        parts = p[0].split(".")
+        if len(parts) == 3 and (parts[0], parts[2], p[1]) in phantom:
+            continue  # the real owner of a column that went to the phantom table
+        # (b) a window function over an expression inside the sub-query contributes only its PARTITION BY / ORDER BY columns
+        if len(parts) == 3 and parts[1] in win:
+            continue
+        rest_m.append(p)
+    return rest_m, rest_u, (len(missing) - len(rest_m)) + (len(unexpected) - len(rest_u))
+
+
+def classify(tags, dialect, missing, unexpected, exp, sql=None):
     """narrow shapes of listed findings; anything else is a violation"""
     t = set(tags)
+    if sql is not None and "select.scalar_subquery" in t:
+        m2, u2, n = _kf39_split(sql, dialect, missing, unexpected)
+        if n:
+            if not m2 and not u2:
+                return "KF-39"
+            # the rest must be a listed finding of its own
+            other = classify(tags, dialect, m2, u2, exp)
+            return ("KF-39+" + other) if other else None
     # KF-16e: the legacy analyzer takes the first part of schema.table.column as the qualifier
     if dialect == "non-validating" and "col.qualified_by_full_name" in t:
         return "KF-16e"
@@ -177,7 +210,9 @@ def run(tier):
                 ansi_ok.add(case["sql"])
             continue
         det = {"missing": missing[:12], "unexpected": unexpected[:12], "expected": sorted(E)[:40], "observed": sorted(O)[:40]}
-        kfid = classify(exp["tags"], d, missing, unexpected, exp)
+        kfid = classify(exp["tags"], d, missing, unexpected, exp, sql=case["sql"])
+        if kfid and kfid.startswith("KF-39+"):
+            kfid = kfid[6:] if run_.kf_listed("KF-39") else None
         if d == "ansi" and kfid is not None and run_.kf_listed(kfid):
             ansi_ok.add(case["sql"])  # ansi deviates only by a listed finding: still the referee for per-dialect blind spots
         if d != "ansi" and case["sql"] in ansi_ok and f"{d}:{st.kind}" in DIALECT_BLIND_SPOTS:
